@@ -7,6 +7,8 @@ import Marwood.Lemmas.ContResumeCap
 import Marwood.Lemmas.StackWFBpLive
 import Marwood.Lemmas.ContResumeMachine
 import Marwood.Proofs.C13
+import Marwood.Lemmas.EvalKReentry
+import Marwood.Lemmas.EvalKAgreeTop
 /-!
 # C05 — first-class continuations: capture, invocation, re-entry
 
@@ -866,5 +868,121 @@ example : ∃ r2, runN (concreteOps failingExt) 1
     ⟨fun c hc => (by cases hc), fun _ _ _ _ => trivial⟩ rfl
 
 end Concrete
+
+/-! ## The property at the level of the LANGUAGE: `Spec.EvalK`
+
+`Spec.EvalK` is a definitional interpreter for the language of `Spec.Eval` with first-class continuations, written in
+defunctionalised continuation-passing style (a continuation = a list of frames; `call/cc` appends the current one to an
+append-only table and hands the receiver a value denoting that entry; applying such a value drops the current
+continuation). It is the specification random programs with `call/cc` are judged against (stream
+`callcc-grammar-vs-cps-spec`). The clauses of the property are theorems about it (proofs: `Lemmas/EvalK*.lean`). -/
+section CpsSpec
+open Marwood.Spec.Eval Marwood.Spec.EvalK Marwood.Lemmas.EvalK Marwood.Lemmas.EvalKAgree
+
+/-- more steps never change an outcome of the K machine -/
+theorem runK_fuel_mono (n k : Nat) (s : State) (res : Outcome × St × Array Kont)
+    (h : runK n s = some res) : runK (n + k) s = some res := runK_mono n k s res h
+
+/-- a `call/cc` whose receiver returns normally behaves like an ordinary call: `(call/cc f)` in continuation `κ` is, after
+    one step, the ordinary application of `f` to one argument IN THE SAME continuation `κ` and the same store — so
+    whatever the receiver returns (it need not use its argument) is the value of the `call/cc` expression; and a normal
+    return of `v` to `κ` is the same machine state as an invocation `(k v)` from any context `κany` -/
+theorem callcc_normal_return (n : Nat) (f : Val) (κ : Kont) (σ : St) (ks : Array Kont) (hf : isProcedure f = true) :
+    runK (n + 1) ⟨.app callccVal [f], κ, σ, ks⟩ = runK n ⟨.app f [contVal ks.size], κ, σ, ks.push κ⟩
+    ∧ (ks.push κ)[ks.size]? = some κ
+    ∧ ∀ (v : Val) (κany : Kont) (σ' : St) (ks' : Array Kont), ks'[ks.size]? = some κ →
+        stepK ⟨.app (contVal ks.size) [v], κany, σ', ks'⟩ = .run ⟨.ret v, κ, σ', ks'⟩ :=
+  ⟨Marwood.Lemmas.EvalK.callcc_is_ordinary_call n f κ σ ks hf, Marwood.Lemmas.EvalK.captured_is_current κ ks,
+   fun v κany σ' ks' h => Marwood.Lemmas.EvalK.receiver_return_equals_invocation ks.size κ κany v σ' ks' h⟩
+
+/-- invoking a continuation with `v` from ANY current continuation abandons it: the next state is `ret v` to the captured
+    continuation on the current store -/
+theorem throw_discards_context (i : Nat) (κ' : Kont) (args : List Val) (v : Val) (κ : Kont) (σ : St)
+    (ks : Array Kont) (hi : ks[i]? = some κ') (hv : args.getLast? = some v) :
+    stepK ⟨.app (contVal i) args, κ, σ, ks⟩ = .run ⟨.ret v, κ', σ, ks⟩ :=
+  Marwood.Lemmas.EvalK.throw_discards_context i κ' args v κ σ ks hi hv
+
+/-- … hence the whole rest of the run (any number of steps, the outcome, the final store) does not depend on the
+    abandoned context, and is the run of the captured continuation receiving `v` -/
+theorem throw_result_independent_of_context (n i : Nat) (κ' : Kont) (v : Val) (κ₁ κ₂ : Kont) (σ : St)
+    (ks : Array Kont) (hi : ks[i]? = some κ') :
+    runK (n + 1) ⟨.app (contVal i) [v], κ₁, σ, ks⟩ = runK (n + 1) ⟨.app (contVal i) [v], κ₂, σ, ks⟩
+    ∧ runK (n + 1) ⟨.app (contVal i) [v], κ₁, σ, ks⟩ = runK n ⟨.ret v, κ', σ, ks⟩ :=
+  Marwood.Lemmas.EvalK.throw_result_independent_of_context n i κ' v κ₁ κ₂ σ ks hi
+
+/-- variable and data mutations made since the capture stay visible: the store after the throw is the store at the throw -/
+theorem mutations_survive_throw (i : Nat) (args : List Val) (κ : Kont) (σ : St) (ks : Array Kont) (s' : State)
+    (h : stepK ⟨.app (contVal i) args, κ, σ, ks⟩ = .run s') : s'.σ = σ ∧ s'.ks = ks :=
+  Marwood.Lemmas.EvalK.mutations_survive_throw i args κ σ ks s' h
+
+/-- operands already evaluated at capture time keep their values: the continuation captured while an operand was being
+    evaluated is the operand frame holding the values `done` of the earlier operands; re-entering it with `v` goes on with
+    the NEXT operand, `done` is not evaluated again -/
+theorem operands_evaluated_before_capture_are_kept (i : Nat) (ρ : Env) (done : List Val) (e : Datum)
+    (es : List Datum) (th : ArgsThen) (κ₀ κ : Kont) (v : Val) (σ : St) (ks : Array Kont)
+    (hi : ks[i]? = some (.args ρ done (e :: es) th :: κ₀)) (n : Nat) :
+    runK (n + 2) ⟨.app (contVal i) [v], κ, σ, ks⟩
+      = runK n ⟨.ev e ρ, .args ρ (v :: done) es th :: κ₀, σ, ks⟩ :=
+  (Marwood.Lemmas.EvalK.operands_evaluated_before_capture_are_kept i ρ done e es th κ₀ κ v σ ks hi).2 n
+
+/-- any number of times, from any depth, inside or after the extent, from a later top-level evaluation: in every state
+    reached later the same continuation value still denotes the same continuation -/
+theorem reentry_any_number_of_times (i : Nat) (κ' : Kont) (n : Nat) (s s' : State)
+    (h0 : s.ks[i]? = some κ') (hreach : iterK n (.run s) = .run s') (v : Val) (κnow : Kont) :
+    stepK ⟨.app (contVal i) [v], κnow, s'.σ, s'.ks⟩ = .run ⟨.ret v, κ', s'.σ, s'.ks⟩ :=
+  Marwood.Lemmas.EvalK.reentry_any_number_of_times i κ' n s s' h0 hreach v κnow
+
+/-- `Spec.EvalK` is tied to `Spec.Eval` (the specification C01's theorems are about): the machine that does not
+    recognise `call/cc` simulates `Spec.Eval` on EVERY form of its language, in any continuation -/
+theorem evalK_machine_simulates_eval (n : Nat) (e : Datum) (ρ : Env) (σ : St) (κ : Kont) (ks : Array Kont) :
+    (∀ v σ', (evalN n).eval e ρ σ = .ok v σ' → Reach (evalIn e ρ κ σ ks) (retTo v κ σ' ks)) ∧
+    (∀ c σ', (evalN n).eval e ρ σ = .err c σ' → Reach (evalIn e ρ κ σ ks) (.halt (.err c) σ' ks)) :=
+  eval_agrees n e ρ σ κ ks
+
+/-- … and the two machines coincide on a run that applies neither `call/cc` nor a continuation value -/
+theorem evalK_agrees_with_eval (n m : Nat) (d : Datum) (σ : St) (ks : Array Kont)
+    (hq : Quiet m (topGo d [] σ ks)) :
+    (∀ v σ', evalTop (evalN n) d σ = .ok v σ' → runNext false m (topGo d [] σ ks) = some (.value v, σ', ks) →
+        runNext true m (topGo d [] σ ks) = some (.value v, σ', ks)) ∧
+    (∀ c σ', evalTop (evalN n) d σ = .err c σ' → runNext false m (topGo d [] σ ks) = some (.err c, σ', ks) →
+        runNext true m (topGo d [] σ ks) = some (.err c, σ', ks)) :=
+  Marwood.Lemmas.EvalKAgree.evalK_agrees_with_eval n m d σ ks hq
+
+/-! non-vacuity on tiny programs (kernel evaluation of a few dozen machine steps) -/
+private def sym (s : List Char) : Datum := .sym s
+private def nat (n : Int) : Datum := .num (.fix n)
+private def L (xs : List Datum) : Datum := Datum.ofList xs
+/-- `(call/cc (lambda (k) body…))` -/
+private def ccLam (body : List Datum) : Datum := L [sym k_callcc, L (sym k_lambda :: L [sym ['k']] :: body)]
+
+/-- escape: `(+ 1 (call/cc (lambda (k) (* 2 (k 5)))))` is 6 — the pending `(* 2 _)` is abandoned -/
+example : resultsK 100 [L [sym ['+'], nat 1, ccLam [L [sym ['*'], nat 2, L [sym ['k'], nat 5]]]]]
+    = [.ok (.num (.fix 6))] := by decide +kernel
+
+/-- normal return: `(+ 1 (call/cc (lambda (k) 7)))` is 8 -/
+example : resultsK 100 [L [sym ['+'], nat 1, ccLam [nat 7]]] = [.ok (.num (.fix 8))] := by decide +kernel
+
+/-- re-entry from a later top-level form, an operand evaluated before the capture, a mutation made since:
+    `(define kk 0) (define n 0) (define r (list (begin (set! n (+ n 1)) n) (call/cc (lambda (k) (set! kk k) 5))))`
+    `r` ⇒ (1 5); `(begin (set! n 10) (kk 9))` re-runs the rest of the definition (its value: void); `r` ⇒ (1 9): the
+    first operand was NOT evaluated again (it would be 11); `n` ⇒ 10: the assignment made before the throw is visible -/
+example : resultsK 200
+    [L [sym k_define, sym ['k', 'k'], nat 0],
+     L [sym k_define, sym ['n'], nat 0],
+     L [sym k_define, sym ['r'],
+        L [sym ['l', 'i', 's', 't'],
+           L [sym k_begin_, L [sym k_setBang, sym ['n'], L [sym ['+'], sym ['n'], nat 1]], sym ['n']],
+           ccLam [L [sym k_setBang, sym ['k', 'k'], sym ['k']], nat 5]]],
+     sym ['r'],
+     L [sym k_begin_, L [sym k_setBang, sym ['n'], nat 10], L [sym ['k', 'k'], nat 9]],
+     sym ['r'],
+     sym ['n']]
+    = [.ok .void, .ok .void, .ok .void,
+       .ok (.pair (.num (.fix 1)) (.pair (.num (.fix 5)) .nil)),
+       .ok .void,
+       .ok (.pair (.num (.fix 1)) (.pair (.num (.fix 9)) .nil)),
+       .ok (.num (.fix 10))] := by decide +kernel
+
+end CpsSpec
 
 end Marwood.Proofs.C05
